@@ -48,10 +48,17 @@ RULE = ('(a) random observations of C02 (3-16 dumps) x prior histories of 0-5 se
         'random order, to katdal.concatdata.ConcatenatedDataSet; a case is one concatenation (structure: run-on '
         'index sensors, numbering, one scan / compscan / target per dump) or one (concatenation, prior history on '
         'the whole, iterator); non-trivial when the concatenation has at least three scans and a part carried a '
-        'selection.')
+        'selection. (d) random observations of C02 x prior histories of 0-3 calls x generator x loop body of 0-2 generated '
+        'select() calls (class fb: frequency / corrprod / weights / flags keywords with reset in {\'\', auto, F, B, FB}; class '
+        'time: one time keyword with reset=\'\'; class none) x break point (never, or item 0 / 1 / 2 / 5 / 7, then generator '
+        'closed / deleted / kept alive), also once per real data set of (b); non-trivial when at least two items are selected and '
+        'the body selects or the loop is left early. (e) 2-3 synthetic v3 (or v2) files with different start times opened with '
+        'katdal.open([...]) in shuffled order; structure clauses of (c) + 2 iterator cases each.')
 ASSUMPTIONS = ['single spectral window / subarray; names cross the wire as integer ids (as in C02)',
-               'early exit from the generator (break) is excluded: the docstring promises the restore only on exhaustion',
-               'the loop body does not call select() itself other than through a nested generator',
+               'early exit from the generator (break / close / garbage collection): the docstring promises the restore only on '
+               'exhaustion; what is left is the selection of the current item (C03_abandoned) - checked as such',
+               'a loop body that calls select() is in the domain only if it adds no time criterion (C03_selecting_body); bodies '
+               'adding a time criterion are compared with the model only (tie), their leak is not reported',
                'the categorical sensors handed to the segmentation pipeline are the ones produced by the real '
                'sensor_to_categorical (C10) on the written events; the pipeline after that point is modelled',
                'concatenations: the parts are data sets of one format class with one dump period on a common dump grid, '
@@ -108,6 +115,8 @@ def observe_state(ob, d):
     return dict(tk=[int(x) for x in d._time_keep], fk=[int(x) for x in d._freq_keep], bk=[int(x) for x in d._corrprod_keep],
                 keys=list(d._selection.keys()), dumps=[int(x) for x in d.dumps], channels=[int(x) for x in d.channels],
                 cps=[(str(a), str(b)) for a, b in d.corr_products], shape=tuple(int(x) for x in d.shape),
+                scans=[int(x) for x in d.scan_indices], compscans=[int(x) for x in d.compscan_indices],
+                targets=[int(x) for x in d.target_indices],
                 nts=len(d.timestamps), wk=d._weights_keep if ob.compare_wf else None,
                 flk=d._flags_keep if ob.compare_wf else None)
 
@@ -183,7 +192,8 @@ def compare_state(ctx, ob, got, ms, what, sg, case, kind='tie'):
 def check_public(ctx, ob, got, tk, fk, bk, what, sg, case):
     """public observables implied by three masks"""
     exp = c02.expected_from_masks(ob, tk, fk, bk)
-    bad = [k for k in ('dumps', 'channels', 'cps', 'shape', 'nts') if got[k] != exp[k]]
+    # scan_indices / compscan_indices / target_indices: sorted, duplicate-free, exactly the indices of the dumps kept
+    bad = [k for k in ('dumps', 'channels', 'cps', 'shape', 'nts', 'scans', 'compscans', 'targets') if got[k] != exp[k]]
     if bad:
         ctx.disagree(sg + ':' + what + ':' + ','.join(bad), case, {k: got[k] for k in bad}, {k: exp[k] for k in bad},
                      'selection %s differs from the statement' % what)
@@ -290,6 +300,10 @@ def run_iter_case(ctx, ob, history, mode, cid, note=True, extra=None, sig_prefix
     ctx.count('iter=%s%s' % (outer, ('/' + inner) if inner else ''))
     ctx.count('history=' + hcls)
     ctx.count('yields', len(ys))
+    nsel0 = sum(before['tk'])
+    ctx.count('prior_selection=%s' % ('empty' if nsel0 == 0 else 'all' if nsel0 == len(before['tk']) else
+                                      'single_dump' if nsel0 == 1 else 'partial'))
+    ctx.count('items=%s' % (len(ys) if len(ys) < 2 else '2+'))
     ok = compare_items(ctx, ob, ys, model[1], spec, before, outer, inner, hcls, case, prefix=sig_prefix)
     if ok and inner:
         for y, m, s in zip(ys, model[1], spec):
@@ -315,6 +329,330 @@ def run_iter_case(ctx, ob, history, mode, cid, note=True, extra=None, sig_prefix
         ctx.note_case(cid, nontrivial=len(ys) >= 2 and nsel < len(before['tk']),
                       sample=dict(mode=[outer, inner], history=case['history'], indices=[y['index'] for y in ys],
                                   dumps_before=before['dumps']))
+
+
+# ---------------------------------------------------------------------------------------------------------------
+# (d) loop bodies that call select() themselves, abandoned iterations (break / close / garbage collection)
+
+BODY_CLASSES = ['none', 'fb', 'fb', 'time']
+ABANDON = ['break', 'close', 'del', 'hold']
+
+
+def gen_body(rng, ob, cls):
+    """select() calls issued by the loop body at every yield.  'fb': no time keyword (theorem C03_selecting_body
+    applies: partition and time restore hold); 'time': one call adds a time criterion with reset='' (outside the
+    domain of the property: tie only)."""
+    calls = []
+    if cls == 'none':
+        return calls
+    for _ in range(rng.choice([1, 1, 2])):
+        if cls == 'fb':
+            keys = rng.sample(c02.FREQ + c02.CORR + ['flags', 'weights'], rng.choice([1, 1, 2]))
+            reset = rng.choice(['', '', '', None, 'F', 'B', 'FB', 'auto'])
+        else:
+            keys = [rng.choice(c02.TIME)]
+            reset = ''
+        call = []
+        for k in keys:
+            v, w, f = c02.gen_criterion(rng, ob, k)
+            call.append((k, v, w, f))
+        if reset is not None:
+            call.append(('reset', reset, [10, c02.codes(reset)], 'reset'))
+        calls.append(call)
+    return calls
+
+
+def run_body_impl(ob, d, outer, body, brk, how):
+    """The real generator with a loop body issuing `body` at every yield; brk = None: to exhaustion, else the loop
+    is left while item number brk is current (break; then the generator is closed / deleted / kept alive)."""
+    import gc
+    ys = []
+    name_id = {'scans': state_id, 'compscans': label_id}
+    abandoned = None
+    gen = getattr(d, outer)()
+    for i, (idx, name, tgt) in enumerate(gen):
+        y = dict(index=int(idx), name=name_id[outer](name), target=target_index(d, tgt), st=observe_state(ob, d))
+        if brk is not None and i == brk:
+            abandoned = y
+            break
+        for call in body:
+            d.select(**c02.py_call(call))
+        y['after_body'] = observe_state(ob, d)
+        ys.append(y)
+    if abandoned is not None:
+        if how == 'close':
+            gen.close()
+        elif how in ('del', 'break'):
+            del gen
+            gc.collect()
+        abandoned['left'] = observe_state(ob, d)
+    return ys, abandoned, observe_state(ob, d), (gen if how == 'hold' and abandoned is not None else None)
+
+
+def body_sig(outer, cls, brk, symptom):
+    return 'body=%s;iter=%s;%ssymptom=%s' % (cls, outer, 'abandoned;' if brk is not None else '', symptom)
+
+
+def run_body_case(ctx, ob, history, outer, cls, body, brk, how, cid, note=True, sig_prefix=''):
+    key = outer
+    st_w, lb_w = obs_cds(ob.d)
+    payload = [ob.wire(), st_w, lb_w, [c02.wire_call(c) for c in history], WHICH[outer],
+               [c02.wire_call(c) for c in body], -1 if brk is None else brk]
+    out = ctx.model([[34, payload]])[0]
+    if out == [-999] or len(out) != 4:
+        ctx.count('body_model_error')       # e.g. the last good model binary predates wire_34
+        return
+    statuses, ms0, model, spec = out
+    case = dict(cid=cid, iter=outer, body_class=cls, body=[c02.describe_call(c) for c in body], break_at=brk, how=how,
+                obs=getattr(ob, 'spec', None), history=[c02.describe_call(c) for c in history], statuses=statuses)
+
+    def bs(sym):
+        return sig_prefix + body_sig(outer, cls, brk, sym)
+    d = ob.fresh()
+    with warnings.catch_warnings():
+        warnings.simplefilter('ignore')
+        for call, stt in zip(history, statuses):
+            if stt != 0:
+                continue
+            try:
+                d.select(**c02.py_call(call))
+            except Exception:      # noqa: BLE001 - C02's business
+                ctx.count('prior_history_raised')
+                return
+        before = observe_state(ob, d)
+        if not compare_state(ctx, ob, before, ms0, 'before', bs('prior_history'), case):
+            return
+        if model[0] != 0:
+            try:
+                run_body_impl(ob, d, outer, body, brk, how)
+            except Exception:      # noqa: BLE001
+                ctx.count('body_iteration_raised_in_both')
+                return
+            ctx.disagree(bs('model_raises_impl_not'), case, 'ok', model, 'the model predicts an exception', kind='tie')
+            return
+        try:
+            ys, ab, after, held = run_body_impl(ob, d, outer, body, brk, how)
+        except Exception as e:      # noqa: BLE001
+            ctx.disagree(bs('raises'), case, repr(e), 'ok', 'the generator / the body raised where the model does not')
+            return
+    ctx.traces_validated += 1
+    ctx.count('body=%s' % cls)
+    ctx.count('abandoned=%s' % ((how if ab is not None else 'beyond_last_item') if brk is not None else 'no'))
+    ctx.count('body_calls=%d' % len(body))
+    m_ys, m_ab, m_final = (model[1], None, model[2]) if brk is None else (model[1], model[2], model[3])
+    # ---- tie: complete iterations
+    if [y['index'] for y in ys] != [m[0] for m in m_ys]:
+        ctx.disagree(bs('indices_vs_model'), case, [y['index'] for y in ys], [m[0] for m in m_ys],
+                     'indices of the complete iterations differ from the model', kind='tie')
+        return
+    ok = True
+    for y, m in zip(ys, m_ys):
+        if (y['name'], y['target']) != (m[1], m[2]):
+            ctx.disagree(bs('values_vs_model'), case, [y['name'], y['target']], [m[1], m[2]],
+                         'yielded state/label/target differ from the model', kind='tie')
+            ok = False
+        ok &= compare_state(ctx, ob, y['st'], m[3], 'yield', bs(''), case)
+        ok &= compare_state(ctx, ob, y['after_body'], m[4], 'after_body', bs(''), case)
+    # ---- property (time partition; holds for every body that adds no time criterion: C03_selecting_body)
+    spec_of = {sp[0]: sp for sp in spec}
+    if cls != 'time':
+        exp_idx = [sp[0] for sp in spec][:len(ys)] if brk is not None else [sp[0] for sp in spec]
+        if [y['index'] for y in ys] != exp_idx:
+            ctx.disagree(bs('indices'), case, [y['index'] for y in ys], exp_idx,
+                         'the items visited are not the selected ones, once each, in increasing order')
+            ok = False
+        for y in ys:
+            sp = spec_of.get(y['index'])
+            if sp is None or y['st']['tk'] != sp[4]:
+                ctx.disagree(bs('dumps'), case, y['st']['tk'], sp[4] if sp else None,
+                             'dumps exposed during a yield are not the prior selection restricted to the item '
+                             '(whatever the earlier loop bodies selected)')
+                ok = False
+                continue
+            ok &= check_public(ctx, ob, y['st'], sp[4], y['st']['fk'], y['st']['bk'], 'yield', bs(''), case)
+            if y['name'] != sp[1]:
+                ctx.disagree(bs('name'), case, y['name'], sp[1], 'yielded state/label is not that of the dumps shown')
+                ok = False
+            if y['target'] not in sp[3]:
+                ctx.disagree(bs('target_not_of_dumps'), case, y['target'], sp[3], 'yielded target is not a target of the dumps shown')
+                ok = False
+    if brk is None or ab is None:
+        # ---- exhaustion
+        if brk is not None and m_ab:
+            ctx.disagree(bs('model_abandons_impl_exhausts'), case, None, m_ab, 'the model has an item number %d' % brk, kind='tie')
+            return
+        ok &= compare_state(ctx, ob, after, m_final, 'after', bs(''), case)
+        if cls != 'time':
+            bad = [k for k in ('tk', 'dumps', 'nts', 'scans', 'compscans', 'targets') if after[k] != before[k]]
+            tkeys = lambda st: sorted(k for k in st['keys'] if k in c02.TIME)     # noqa: E731
+            if tkeys(after) != tkeys(before):
+                bad.append('time_keys')
+            if cls == 'none':
+                bad += [k for k in ('fk', 'bk', 'channels', 'cps', 'shape', 'wk', 'flk') if after[k] != before[k]]
+            if bad:
+                ctx.disagree(bs('restore:' + ','.join(bad)), case, {k: after.get(k) for k in bad}, {k: before.get(k) for k in bad},
+                             'time selection after exhaustion differs from the selection before iteration')
+        elif after['tk'] != before['tk']:
+            ctx.count('time_selecting_body_leaked_past_exhaustion')
+    else:
+        # ---- abandoned while item number brk was current
+        if not m_ab:
+            ctx.disagree(bs('impl_abandons_model_exhausts'), case, ab['index'], None, 'the model has no item number %d' % brk, kind='tie')
+            return
+        if [ab['index'], ab['name'], ab['target']] != m_ab[:3]:
+            ctx.disagree(bs('abandoned_item_vs_model'), case, [ab['index'], ab['name'], ab['target']], m_ab[:3],
+                         'the item current at the break differs from the model', kind='tie')
+            ok = False
+        ok &= compare_state(ctx, ob, ab['left'], m_ab[3], 'left', bs(''), case)
+        ok &= compare_state(ctx, ob, after, m_final, 'after', bs(''), case)
+        if cls != 'time':
+            sp = spec_of.get(ab['index'])
+            exp_idx = [s_[0] for s_ in spec]
+            if sp is None or brk >= len(exp_idx) or exp_idx[brk] != ab['index']:
+                ctx.disagree(bs('abandoned_index'), case, ab['index'], exp_idx, 'the item current at the break is not item number %d' % brk)
+            elif ab['left']['tk'] != sp[4]:
+                # "after each iteration the data set will reflect the scan selection": nothing runs after the yield
+                ctx.disagree(bs('left:tk'), case, ab['left']['tk'], sp[4],
+                             'the selection left by an abandoned iteration is not the prior selection restricted to the current item')
+            else:
+                check_public(ctx, ob, ab['left'], sp[4], ab['left']['fk'], ab['left']['bk'], 'left', bs(''), case)
+                if cls == 'none':
+                    bad = [k for k in ('fk', 'bk', 'wk', 'flk') if ab['left'][k] != before[k]]
+                    if sorted(ab['left']['keys']) != sorted(set(before['keys']) | {key}):
+                        bad.append('keys')
+                    if bad:
+                        ctx.disagree(bs('left:' + ','.join(bad)), case, {k: ab['left'].get(k) for k in bad},
+                                     {k: before.get(k) for k in bad},
+                                     'an abandoned iteration changed more than the time selection and _selection[%r]' % key)
+                # picking the work up again: the same generator now visits the abandoned item alone and restores the
+                # abandoned selection (C03_abandoned_then_iterate)
+                if held is None and cls == 'none':
+                    with warnings.catch_warnings():
+                        warnings.simplefilter('ignore')
+                        try:
+                            again = [int(i) for i, n_, t_ in getattr(d, outer)()]
+                            st2 = observe_state(ob, d)
+                        except Exception as e:      # noqa: BLE001
+                            again, st2 = repr(e), None
+                    if again != [ab['index']] or any(st2[k] != ab['left'][k] for k in ('tk', 'fk', 'bk', 'dumps', 'scans')) \
+                            or sorted(st2['keys']) != sorted(ab['left']['keys']):
+                        ctx.disagree(bs('iterate_after_break'), case, [again, st2 and st2['tk']], [[ab['index']], ab['left']['tk']],
+                                     'iterating again after a break does not visit the abandoned item alone / does not '
+                                     'restore the abandoned selection')
+    if held is not None:
+        held.close()
+    if note:
+        ctx.note_case(cid, nontrivial=len(spec) >= 2 and (cls != 'none' or brk is not None),
+                      sample=dict(iter=outer, body=case['body'], break_at=brk, how=how, history=case['history'],
+                                  indices=[y['index'] for y in ys]))
+
+
+def run_inner_break_impl(ob, d, outer, inner, brk):
+    """for ... in d.<outer>(): for ... in d.<inner>(): ...; break (at inner item number brk), outer run to exhaustion"""
+    import gc
+    name_id = {'scans': state_id, 'compscans': label_id}
+    ys = []
+    for idx, name, tgt in getattr(d, outer)():
+        y = dict(index=int(idx), name=name_id[outer](name), target=target_index(d, tgt), st=observe_state(ob, d), inner=[], ab=None)
+        gen = getattr(d, inner)()
+        for i, (idx2, name2, tgt2) in enumerate(gen):
+            z = dict(index=int(idx2), name=name_id[inner](name2), target=target_index(d, tgt2), st=observe_state(ob, d))
+            if i == brk:
+                y['ab'] = z
+                break
+            y['inner'].append(z)
+        del gen      # CPython finalises the suspended generator at once (GeneratorExit at its yield)
+        y['after_inner'] = observe_state(ob, d)
+        ys.append(y)
+    return ys, observe_state(ob, d)
+
+
+def run_inner_break_case(ctx, ob, history, outer, inner, brk, cid, note=True):
+    """Tie only (a break in the inner loop is outside the domain of the property: C03_inner_break_example): the real
+    nested loops against the model iterate_nested_break, including WHETHER the outer generator raises."""
+    st_w, lb_w = obs_cds(ob.d)
+    payload = [ob.wire(), st_w, lb_w, [c02.wire_call(c) for c in history], WHICH[outer], WHICH[inner], brk]
+    out = ctx.model([[35, payload]])[0]
+    if out == [-999] or len(out) != 3:
+        ctx.count('inner_break_model_error')
+        return
+    statuses, ms0, model = out
+    sg = 'inner_break;iter=%s/%s;symptom=' % (outer, inner)
+    case = dict(cid=cid, mode=[outer, inner], inner_break_at=brk, obs=getattr(ob, 'spec', None),
+                history=[c02.describe_call(c) for c in history], statuses=statuses)
+    d = ob.fresh()
+    with warnings.catch_warnings():
+        warnings.simplefilter('ignore')
+        for call, stt in zip(history, statuses):
+            if stt != 0:
+                continue
+            try:
+                d.select(**c02.py_call(call))
+            except Exception:      # noqa: BLE001
+                ctx.count('prior_history_raised')
+                return
+        before = observe_state(ob, d)
+        if not compare_state(ctx, ob, before, ms0, 'before', sg + 'prior_history', case):
+            return
+        try:
+            ys, after = run_inner_break_impl(ob, d, outer, inner, brk)
+            raised = None
+        except IndexError as e:
+            raised = repr(e)
+    ctx.traces_validated += 1
+    if model[0] != 0:
+        ctx.count('inner_break=raises_in_both' if raised else 'inner_break=model_raises_only')
+        if not raised:
+            ctx.disagree(sg + 'model_raises_impl_not', case, 'ok', model, 'the model predicts IndexError', kind='tie')
+        return
+    if raised:
+        ctx.disagree(sg + 'impl_raises_model_not', case, raised, 'ok', 'the nested loops raise where the model does not', kind='tie')
+        return
+    m_ys, m_final = model[1], model[2]
+    if [y['index'] for y in ys] != [m[0] for m in m_ys]:
+        ctx.disagree(sg + 'indices_vs_model', case, [y['index'] for y in ys], [m[0] for m in m_ys],
+                     'outer indices differ from the model', kind='tie')
+        return
+    for y, m in zip(ys, m_ys):
+        compare_state(ctx, ob, y['st'], m[3], 'yield', sg, case)
+        m_inner, m_ab = m[4]
+        if [z['index'] for z in y['inner']] != [z[0] for z in m_inner] or \
+                (y['ab'] is None) != (not m_ab) or (m_ab and y['ab']['index'] != m_ab[0]):
+            ctx.disagree(sg + 'inner_vs_model', case, [[z['index'] for z in y['inner']], y['ab'] and y['ab']['index']],
+                         [[z[0] for z in m_inner], m_ab and m_ab[0]], 'inner items differ from the model', kind='tie')
+        elif m_ab:
+            compare_state(ctx, ob, y['ab']['st'], m_ab[3], 'inner_left', sg, case)
+    compare_state(ctx, ob, after, m_final, 'after', sg, case)
+    leaked = after['tk'] != before['tk']
+    ctx.count('inner_break=%s' % ('leaks_past_exhaustion' if leaked else 'no_trace'))
+    if note:
+        ctx.note_case(cid, nontrivial=len(ys) >= 1, sample=dict(mode=[outer, inner], inner_break_at=brk, history=case['history']))
+
+
+def inner_break_cases(bseed, n):
+    rng = random.Random(bseed)
+    ob = c02.Observation(c02.gen_obs(rng))
+    out = []
+    for j in range(n):
+        hist = stack_history(rng, ob, rng.choice([0, 0, 1, 1, 2]))
+        outer, inner = rng.choice([('compscans', 'scans'), ('compscans', 'scans'), ('scans', 'compscans')])
+        out.append((hist, outer, inner, rng.choice([0, 0, 1, 2])))
+    return ob, out
+
+
+def body_cases(bseed, n):
+    rng = random.Random(bseed)
+    ob = c02.Observation(c02.gen_obs(rng))
+    out = []
+    for j in range(n):
+        hist = stack_history(rng, ob, rng.choice([0, 0, 1, 1, 2, 3]))
+        outer = rng.choice(['scans', 'compscans'])
+        cls = rng.choice(BODY_CLASSES)
+        body = gen_body(rng, ob, cls)
+        brk = rng.choice([None, None, 0, 0, 1, 2, 5]) if cls != 'none' else rng.choice([0, 0, 1, 1, 2, 3, 7])
+        how = rng.choice(ABANDON)
+        out.append((hist, outer, cls, body, brk, how))
+    return ob, out
 
 
 # ---------------------------------------------------------------------------------------------------------------
@@ -401,6 +739,16 @@ def gen_events(rng, fmt):
             targets.append((frac(rng, p) if p > 0 else 0, rng.choice(TDESC)))
     targets = sorted(set(targets), key=lambda x: x[0])
     targets = [t for i, t in enumerate(targets) if i == 0 or t[0] != targets[i - 1][0]]
+    if fmt == 4 and len(acts) > 1 and rng.random() < 0.3:
+        # antennas start in STOP with a target left over from the previous capture block: one or two initial stop
+        # scans, the first real target set at a later scan start (the initial-stop-target loop of visdatav4.py)
+        acts[0] = (0, 'stop')
+        k = rng.randrange(1, len(acts))
+        if rng.random() < 0.7:
+            acts = [(a[0], 'stop') if i < k else a for i, a in enumerate(acts)]     # nothing but STOP before it
+        pk = acts[k][0]
+        others = [t for t in TDESC if t != targets[0][1]]
+        targets = [targets[0], (pk, rng.choice(others))] + [t for t in targets[1:] if int(t[0] + 0.5) > int(pk + 0.5)]
     return dict(fmt=fmt, T=T, acts=acts, labels=labels, targets=targets)
 
 
@@ -467,6 +815,26 @@ SENSORS = ['Observation/scan_state', 'Observation/scan_index', 'Observation/labe
            'Observation/target', 'Observation/target_index']
 
 
+_SEG_PARAMS = {}
+
+
+def seg_params(fmt):
+    """ids of the strings the pipeline of this format class tests for, read from its source by the translator item
+    (so that an edited string reaches the model as the id of the NEW string, or of no string at all)"""
+    if fmt not in _SEG_PARAMS:
+        from vh import core
+        from vh.items import c03 as items
+        try:
+            c = items.segmentation_constants(core.REPO, 'v%d' % fmt)
+        except Exception:      # noqa: BLE001 - translator refuses the source: broken tie, search with the usual strings
+            c = dict(slew_value='slew', stop_value='stop', label_removed='', label_add_value='', nothing_value=NOTHING)
+        sid = lambda v: STATES.index(v) if v in STATES else -2      # noqa: E731
+        lid = lambda v: LABELS.index(v) if v in LABELS else -2      # noqa: E731
+        _SEG_PARAMS[fmt] = [sid(c['slew_value']), sid(c['stop_value']) if fmt == 4 else sid('stop'), lid(c['label_removed']),
+                            90 if (fmt != 3 or c['nothing_value'] == NOTHING) else -2, lid(c['label_add_value'])]
+    return _SEG_PARAMS[fmt]
+
+
 def py_numbered(l):
     return (not l) or (l[0] == 0 and all(b in (a, a + 1) for a, b in zip(l, l[1:])))
 
@@ -485,7 +853,7 @@ def run_seg_case(ctx, ev, cid, note=True):
         d = rs.d
         T = ev['T']
         ids = [state_id, int, label_id, int, rs.target_id, int]
-        payload = [fmt, [state_id('slew'), state_id('stop'), label_id(''), 90], T,
+        payload = [fmt, seg_params(fmt), T,
                    series_wire(rs.act, state_id), series_wire(rs.lab, label_id), series_wire(rs.tgt, rs.target_id)]
         out = ctx.model([[31, payload]])[0]
         sgn = 'seg;fmt=v%d;' % fmt
@@ -620,6 +988,17 @@ def run_real(ctx, rseed, n_iter, only=None, note=True):
             mode = MODES[rrng.randrange(len(MODES))]
             if only is None or only == j:
                 run_iter_case(ctx, ob, hist, mode, ('real', rseed, n_iter, j), note=note)
+        if n_iter:
+            # one selecting-body / abandoned-iteration case on the real format class
+            hist = stack_history(rrng, ob, rrng.choice([0, 1, 2]))
+            outer = rrng.choice(['scans', 'compscans'])
+            cls = rrng.choice(BODY_CLASSES)
+            body = gen_body(rrng, ob, cls)
+            brk = rrng.choice([None, 0, 1, 2])
+            how = rrng.choice(ABANDON)
+            if only is None or only == n_iter:
+                run_body_case(ctx, ob, hist, outer, cls, body, brk, how, ('real', rseed, n_iter, n_iter), note=note,
+                              sig_prefix='real;')
     finally:
         rs.close()
 
@@ -760,6 +1139,116 @@ class ConcatSet:
     def close(self):
         for t in self.tmps:
             shutil.rmtree(t, ignore_errors=True)
+
+
+class OpenConcatSet:
+    """k HDF5 v3 (or v2) FILES with different start times opened in one go with katdal.open([...]) - the documented way
+    of building a concatenation (the parts are constructed by katdal itself, in the order the file names are given,
+    which is shuffled).  The structure of each part is recorded from a separate katdal.open(<one file>)."""
+
+    def __init__(self, cseed):
+        import katdal
+        from fixtures import v4
+        from fixtures.mkv2 import mkv2
+        from fixtures.mkv3 import mkv3
+        self.rng = rng = random.Random(cseed)
+        self.fmt = fmt = rng.choice([3, 3, 2])
+        k = rng.choice([2, 2, 3])
+        self.evs = [gen_events(rng, fmt) for _ in range(k)]
+        self.offs, off = [], 0
+        for ev in self.evs:
+            self.offs.append(off)
+            off += ev['T'] + rng.choice([0, 1, 3, 10])
+        self.order = list(range(k))
+        rng.shuffle(self.order)
+        self.tmp = v4.scratch_dir('c03')
+        self.tmps = [self.tmp]
+        self.presel = [[] for _ in range(k)]
+        self.hidden = [dict(scans=0, compscans=0) for _ in range(k)]
+        self.files, self.pristine, self._single = [], [], []
+        okw = dict(centre_freq=1284e6) if fmt == 3 else {}
+        try:
+            for i, (ev, off) in enumerate(zip(self.evs, self.offs)):
+                t0 = (1500000000.0 if fmt == 3 else 1300000000.0) + 2.0 * off
+                fn = os.path.join(self.tmp, '%d.h5' % int(t0))
+                (mkv3 if fmt == 3 else mkv2)(fn, T=ev['T'], F=2, t0=t0, acts=tuple(ev['acts']), targets=tuple(ev['targets']),
+                                             labels=tuple(ev['labels']), seed=i)
+                self.files.append(fn)
+                one = katdal.open(fn, **okw)
+                self._single.append(one)
+                self.pristine.append(pristine(one))
+                one.file.close()
+            self.d = katdal.open([self.files[i] for i in self.order], **okw)
+            self.parts = list(self.d.datasets)
+            self.names_in_order = [os.path.basename(getattr(p, 'name', '')) for p in self.parts]
+        except Exception:
+            self.close()
+            raise
+        exp = dict(scan=[], state=[], cscan=[], label=[], tname=[], part=[])
+        s0 = c0 = 0
+        for i, pr in enumerate(self.pristine):
+            exp['scan'] += [x + s0 for x in pr['scan']]
+            exp['cscan'] += [x + c0 for x in pr['cscan']]
+            exp['state'] += pr['state']
+            exp['label'] += pr['label']
+            exp['tname'] += pr['tname']
+            exp['part'] += [i] * pr['T']
+            s0 += len(set(pr['scan']))
+            c0 += len(set(pr['cscan']))
+        self.exp = exp
+        self.nscans, self.ncompscans = s0, c0
+
+    def presel_class(self):
+        return 'none'
+
+    def close(self):
+        for p in getattr(self, 'parts', []):
+            try:
+                p.file.close()
+            except Exception:      # noqa: BLE001
+                pass
+        shutil.rmtree(self.tmp, ignore_errors=True)
+
+
+def run_open_concat(ctx, cseed, n_iter, only=None, note=True, use_model=True):
+    try:
+        cs = OpenConcatSet(cseed)
+    except Exception as e:      # noqa: BLE001
+        ctx.count('open_concat_failed:%s' % type(e).__name__)
+        ctx.extra.setdefault('open_failed', []).append(dict(cid=('openconcat', cseed), error=repr(e)[:200]))
+        return
+    try:
+        sgn = 'concat;via=open;fmt=v%d;parts=%d;' % (cs.fmt, len(cs.parts))
+        case = dict(cid=('openconcat', cseed, n_iter, -1), events=cs.evs, start_offsets=cs.offs, order=cs.order, fmt=cs.fmt)
+        ctx.traces_validated += 1
+        ctx.count('open_concat_fmt=v%d' % cs.fmt)
+        ctx.count('open_concat_parts=%d' % len(cs.parts))
+        # the parts built by katdal.open must be in time order whatever the order of the file names
+        starts = [float(p.start_time.secs) for p in cs.parts]
+        if starts != sorted(starts) or len(starts) != len(cs.files):
+            ctx.disagree(sgn + 'symptom=parts_not_in_time_order', case, starts, sorted(starts),
+                         'the parts of katdal.open([...]) are not in time order')
+        else:
+            check_concat_structure(ctx, cs, case, sgn, use_model=use_model)
+        if note and only is None:
+            ctx.note_case(('openconcat', cseed), nontrivial=cs.nscans >= 3,
+                          sample=dict(events=cs.evs, order=cs.order, fmt=cs.fmt, scans=cs.nscans, compscans=cs.ncompscans))
+        if not use_model:
+            return
+        try:
+            ob = ConcatObservation(cs.d, cs.exp)
+        except AssertionError:
+            ctx.count('real_obs_outside_vocabulary')
+            return
+        rrng = cs.rng
+        for j in range(n_iter):
+            hist = stack_history(rrng, ob, rrng.choice([0, 1, 1, 2]))
+            mode = MODES[rrng.randrange(len(MODES))]
+            if only is None or only == j:
+                run_iter_case(ctx, ob, hist, mode, ('openconcat', cseed, n_iter, j), note=note,
+                              extra=dict(order=cs.order, fmt=cs.fmt), sig_prefix='concat;via=open;')
+    finally:
+        cs.close()
 
 
 def runs_of(l):
@@ -944,8 +1433,17 @@ def run(ctx):
             run_concat(ctx, ctx.rng.randrange(1 << 30), 0, use_model=False)
         return
     rng = ctx.rng
+    import time
+    t_last = [time.time()]
+    walls = ctx.extra.setdefault('stream_wall_s', {})
+
+    def lap(name):
+        now = time.time()
+        walls[name] = round(now - t_last[0], 1)
+        t_last[0] = now
     for f in ctx.findings:
         run_witness(ctx, f['witness'])
+    lap('witnesses')
     # (a) harness DataSet
     nobs = ctx.scale(30, 400)
     nhist = ctx.scale(20, 25)
@@ -955,6 +1453,22 @@ def run(ctx):
         for j, (hist, mode) in enumerate(cases):
             run_iter_case(ctx, ob, hist, mode, ('harness', oseed, nhist, j))
         ctx.count('observations')
+    lap('a_harness_dataset')
+    # (d) selecting bodies and abandoned iterations
+    nbody = ctx.scale(25, 300)
+    for _ in range(nbody):
+        bseed = rng.randrange(1 << 30)
+        ob, cases = body_cases(bseed, 8)
+        for j, (hist, outer, cls, body, brk, how) in enumerate(cases):
+            run_body_case(ctx, ob, hist, outer, cls, body, brk, how, ('body', bseed, 8, j))
+    lap('d_bodies_breaks')
+    # (d') nested loops with a break in the inner loop (tie only)
+    for _ in range(ctx.scale(10, 120)):
+        bseed = rng.randrange(1 << 30)
+        ob, cases = inner_break_cases(bseed, 6)
+        for j, (hist, outer, inner, brk) in enumerate(cases):
+            run_inner_break_case(ctx, ob, hist, outer, inner, brk, ('innerbreak', bseed, 6, j))
+    lap('d2_inner_breaks')
     # (b) real format classes: segmentation + iterators
     nreal = ctx.scale(90, 1200)
     for _ in range(nreal):
@@ -963,10 +1477,16 @@ def run(ctx):
     for _ in range(nv1):
         vseed = rng.randrange(1 << 30)
         run_v1_case(ctx, gen_v1(random.Random(vseed)), ('v1', vseed))
+    lap('b_real_formats')
     # (c) concatenated data sets: structure + iterators
     ncat = ctx.scale(40, 500)
     for _ in range(ncat):
         run_concat(ctx, rng.randrange(1 << 30), 3)
+    lap('c_concatenations')
+    # (e) concatenations built by katdal.open([file, file, ...]) from HDF5 files
+    for _ in range(ctx.scale(10, 150)):
+        run_open_concat(ctx, rng.randrange(1 << 30), 2)
+    lap('e_open_concatenations')
     if ctx.tier == 'thorough':
         crosscheck_in_coq(ctx)
 
@@ -1008,6 +1528,16 @@ def replay(ctx, doc):
         _, oseed, nhist, j = cid
         ob, cases = harness_cases(oseed, nhist)
         run_iter_case(ctx, ob, cases[j][0], cases[j][1], tuple(cid))
+    elif kind == 'body':
+        _, bseed, n, j = cid
+        ob, cases = body_cases(bseed, n)
+        hist, outer, cls, body, brk, how = cases[j]
+        run_body_case(ctx, ob, hist, outer, cls, body, brk, how, tuple(cid))
+    elif kind == 'innerbreak':
+        _, bseed, n, j = cid
+        ob, cases = inner_break_cases(bseed, n)
+        hist, outer, inner, brk = cases[j]
+        run_inner_break_case(ctx, ob, hist, outer, inner, brk, tuple(cid))
     elif kind == 'seg':
         run_real(ctx, cid[1], 0)
     elif kind == 'real':
@@ -1018,6 +1548,10 @@ def replay(ctx, doc):
         have_model = ctx.model_ok or c02.search_without_model(ctx)
         run_concat(ctx, cid[1], cid[2] if len(cid) > 2 else 3, only=cid[3] if len(cid) > 3 else -1,
                    use_model=have_model)
+    elif kind == 'openconcat':
+        have_model = ctx.model_ok or c02.search_without_model(ctx)
+        run_open_concat(ctx, cid[1], cid[2] if len(cid) > 2 else 2, only=cid[3] if len(cid) > 3 else -1,
+                        use_model=have_model)
     elif kind in ('witness', 'witness-seg'):
         for f in ctx.findings:
             run_witness(ctx, f['witness'])
